@@ -441,8 +441,6 @@ def judge_c02(ctx, rows):
             if o["Outcome"] in ("panic", "timeout"):
                 ctx.violation("c02:text:%s:%s:%s:%s" % (c["enc"], label.split("-")[0], o["Outcome"], o["Detail"].split(":")[0][:60]),
                               "%s decoder, %s target, %s: %s; document: %s" % (c["enc"].upper(), label, where, o["Detail"][:200], s["doc"][:300]), {"case": c, "doc": s["doc"][:20000], "result": x})
-            if k == "first" and str(o.get("Bin", "")).startswith("reencode-panic"):
-                ctx.violation("c02:text:%s:accepted-value-cannot-be-encoded" % c["enc"], "%s: the accepted value makes the encoder panic: %s" % (where, o["Bin"][:200]), {"case": c, "doc": s["doc"][:20000]})
         if not x["unchanged"]:
             ctx.violation("c02:text:%s:input-mutated" % c["enc"], "%s: the input buffer was modified" % where, {"case": c, "doc": s["doc"][:20000]})
         if x["first"]["Outcome"] != x["second"]["Outcome"] or x["first"].get("Bin") != x["second"].get("Bin"):
@@ -484,4 +482,22 @@ def judge_c08(ctx, rows):
             ctx.violation("http:%s:no-single-response" % c["enc"], "HTTP handler, %s: expected status 200 with one response message of one item, got %s" % (where, {k: v for k, v in h.items()}), {"case": c, "doc": s["doc"][:20000]})
         elif x["first"]["Outcome"] == "error" and h.get("status0") != "OperationFailed":
             ctx.violation("http:%s:undecodable-not-failed" % c["enc"], "HTTP handler, %s: the request is not decodable (%s) but the answer is %s" % (where, x["first"]["Detail"][:100], h), {"case": c, "doc": s["doc"][:20000]})
+    return n
+
+
+def judge_c18(ctx, rows):
+    """every text document the typed decoder accepts re-encodes and reaches a fixed point (binary and in its own encoding)"""
+    n = 0
+    for c, s, x in rows:
+        o = x["first"]
+        if o["Outcome"] != "value":
+            continue
+        n += 1
+        where = "%s %s at %s (%s)" % (c["enc"], c["op"], c["node"]["n"], c["doc"])
+        if str(o.get("Bin", "")).startswith("reencode-panic"):
+            ctx.violation("text:%s:accepted-value-cannot-be-encoded:%s" % (c["enc"], o["Bin"].split(":")[1][:50]), "%s: the document is accepted but the accepted value makes the encoder panic: %s" % (where, o["Bin"][:200]),
+                          {"case": c, "doc": s["doc"][:20000]})
+        elif o.get("Fix") not in ("ok", None, ""):
+            ctx.violation("text:%s:no-fixed-point:%s" % (c["enc"], o["Fix"].split(":")[0] + ":" + o["Fix"].split(":")[1][:40]), "%s: the document is accepted but re-encoding the accepted value does not reach a fixed point: %s" % (where, o["Fix"][:300]),
+                          {"case": c, "doc": s["doc"][:20000]})
     return n
